@@ -24,7 +24,7 @@ EXPLANATION = (
     "R-select-nonempty (numpy.select is only called when a value has to be merged at that level)."
 )
 NOT_DECIDED = "which values end up merged on given data; pandas value_counts/select semantics"
-FLOORS = {"R-append-absent": 4, "R-thresholds": 3, "R-merge-target": 6, "R-unknown-exhaustive": 4, "R-known-values-kept": 3, "R-select-nonempty": 1}
+FLOORS = {"R-append-absent": 4, "R-thresholds": 3, "R-merge-target": 7, "R-unknown-exhaustive": 5, "R-known-values-kept": 3, "R-select-nonempty": 1}
 
 CLS = "ChainedDiscretizer"
 
@@ -176,6 +176,52 @@ def rule_merge_target(ctx):
     ctx.ob(R, construct(fi, "values_orders records group(discarded value, its level group)"), ok, loc(fi, grp[0] if grp else None))
 
 
+def rule_working_column(ctx):
+    """Every level works on the column as the previous levels left it: an alias of x_copy[feature]
+    taken before a loop that re-assigns x_copy[feature] is stale inside that loop."""
+    R = "R-merge-target"
+    fi = ctx.repo.find_function(f"{F_QUAL}::{CLS}.fit")
+    cfg = cfg_of(ctx, fi)
+    aliases = {}
+    for n in walk_no_nested(fi.node):
+        if isinstance(n, ast.Assign) and len(n.targets) == 1:
+            t, v = n.targets[0], n.value
+            pairs = []
+            if isinstance(t, ast.Name):
+                pairs = [(t, v)]
+            elif isinstance(t, ast.Tuple) and isinstance(v, ast.Tuple) and len(t.elts) == len(v.elts):
+                pairs = list(zip(t.elts, v.elts))
+            for tt, vv in pairs:
+                if isinstance(tt, ast.Name) and unparse(vv).replace(" ", "") in ("x_copy[feature]", "x_copy.loc[:,feature]"):
+                    aliases[tt.id] = n
+    stale = []
+    for n in walk_no_nested(fi.node):
+        if isinstance(n, (ast.For, ast.While)):
+            writes = [s_ for s_ in ast.walk(n) if isinstance(s_, ast.Assign) and any(unparse(t).replace(" ", "") in ("x_copy[feature]", "x_copy.loc[:,feature]") for t in s_.targets)]
+            if not writes:
+                continue
+            for nm, d in aliases.items():
+                outside = not any(d is x for x in ast.walk(n))
+                reads = [x for x in ast.walk(n) if isinstance(x, ast.Name) and x.id == nm and isinstance(x.ctx, ast.Load)]
+                if outside and reads:
+                    stale.append((nm, reads[0]))
+    ctx.ob(R, construct(fi, "each level reads the column as merged so far (no alias of x_copy[feature] from before the level loop)"), not stale, loc(fi, stale[0][1] if stale else None),
+           "" if not stale else f"`{stale[0][0]}` was taken from x_copy[feature] before the loop that re-assigns the column: from the second level on, the merges of the earlier levels are thrown away")
+
+
+def rule_string_conversion(ctx):
+    """Columns that need the string conversion are found from the type of their cells: an object
+    column can hold integer codes (the hierarchy is written with strings)."""
+    R = "R-unknown-exhaustive"
+    fp = ctx.repo.find_function(f"{F_QUAL}::{CLS}._prepare_data")
+    cell_types = [c for c in ast.walk(fp.node) if isinstance(c, ast.Call) and call_name(c) in ("map", "applymap") and len(c.args) == 1 and unparse(c.args[0]) == "type"]
+    by_dtype = [n for n in ast.walk(fp.node) if isinstance(n, ast.Compare) and any(isinstance(x, ast.Attribute) and x.attr in ("dtypes", "dtype") for x in ast.walk(n)) and "object" in unparse(n)]
+    ok = bool(cell_types) and not by_dtype
+    no = cell_types[0] if cell_types else (by_dtype[0] if by_dtype else None)
+    ctx.ob(R, construct(fp, "non-string columns are detected from the types of the cells (map(type)), not from the column dtype"), ok, loc(fp, no),
+           "" if ok else "an object column holding integer codes is not converted: every known code is then reported as unknown (raise) or merged with the missing values (drop)")
+
+
 def rule_unknown(ctx):
     R = "R-unknown-exhaustive"
     fi = ctx.repo.find_function(f"{F_QUAL}::{CLS}.__init__")
@@ -279,6 +325,8 @@ def rule_known_values(ctx):
 def check(ctx):
     check_append_absent(ctx, "R-append-absent", select=lambda fi: fi.cls is not None and fi.cls.name == CLS)
     rule_thresholds(ctx)
+    rule_working_column(ctx)
+    rule_string_conversion(ctx)
     rule_merge_target(ctx)
     rule_unknown(ctx)
     rule_known_values(ctx)
